@@ -17,11 +17,15 @@ int main(void)
         while (p && nt < 8) { t[nt++] = p; p = strtok(NULL, " "); }
         if (nt == 3 && !strcmp(t[0], "W2XN")) {
             /* optional arguments given as NULL: mode 0 = legacy entry point with params == NULL,
-             * mode 1 = converter object with xml_len == NULL */
+             * mode 1 = converter object with xml_len == NULL, mode 2 = legacy entry point with both NULL */
             size_t n; unsigned char *doc = hx_unhex(t[2], &n);
             WB_UTINY *xml = NULL; WB_ULONG xml_len = 0; WBXMLError ret;
             if (atoi(t[1]) == 0) {
                 ret = n ? wbxml_conv_wbxml2xml_withlen(doc, (WB_ULONG)n, &xml, &xml_len, NULL) : WBXML_ERROR_BAD_PARAMETER;
+            } else if (atoi(t[1]) == 2) {
+                /* mode 2 = legacy entry point with xml_len == NULL as well (what the wbxml_conv_wbxml2xml() macro passes) */
+                ret = n ? wbxml_conv_wbxml2xml_withlen(doc, (WB_ULONG)n, &xml, NULL, NULL) : WBXML_ERROR_BAD_PARAMETER;
+                if (xml) xml_len = (WB_ULONG)strlen((char *)xml);
             } else {
                 WBXMLConvWBXML2XML *conv = NULL;
                 wbxml_conv_wbxml2xml_create(&conv);
